@@ -119,6 +119,23 @@ class TreeDriver:
         self.root[key] = real
         return real
 
+    def set_via(self, path, key, spec):
+        """Assign through the sub-map object at ``path`` (not through the
+        root): the tree below the root changes without the root's own
+        __setitem__ being involved."""
+        node = self.find(path)
+        if node is None or node.kind != 'm':
+            return False
+        real_sub = self.real_map(path)
+        saved_root, saved_model = self.root, self.model
+        self.root, self.model = real_sub, node
+        try:
+            self.set(key, spec)
+        finally:
+            self.root, self.model = saved_root, saved_model
+        self.flags.add('set-via-submap')
+        return True
+
     def reassign(self, key):
         """Assign the object already stored under ``key`` to ``key`` again
         (same map, same name): nothing may change."""
